@@ -118,7 +118,12 @@ func c08Client(c *Ctx, r *Report, ci *clientInfo, control bool) map[string]bool 
 					outside := !ci.loop[call.Block()] && call.Block().Dominates(hdr)
 					fromField := false
 					if a, ok := fr.val(cm.Args[0]).(AInt); ok {
-						fromField = strings.Contains(a.a.String(), "readTimeout")
+						// any time.Duration field of the client (R8.6 decides which values it can hold)
+						for i := 0; i < ci.st.NumFields(); i++ {
+							if isDuration(ci.st.Field(i).Type()) && strings.Contains(a.a.String(), "."+ci.st.Field(i).Name()) {
+								fromField = true
+							}
+						}
 					}
 					timerOK = outside && fromField
 					if !outside {
@@ -170,7 +175,13 @@ func c08Client(c *Ctx, r *Report, ci *clientInfo, control bool) map[string]bool 
 			}
 		case cr.dyn != nil:
 			name = "dynamic " + describeAV(cr.dyn)
-			if !(ci.isField(cr.dyn, ci.asErr) || strings.HasSuffix(describeAV(cr.dyn), ".timeNow)") || strings.Contains(describeAV(cr.dyn), "timeNow")) {
+			isClock := false
+			if sig, ok := cr.instr.Common().Value.Type().Underlying().(*types.Signature); ok && sig.Params().Len() == 0 && sig.Results().Len() == 1 {
+				if n, ok := sig.Results().At(0).Type().(*types.Named); ok && n.Obj().Pkg() != nil && n.Obj().Pkg().Path() == "time" && n.Obj().Name() == "Time" {
+					isClock = true // the injectable clock: func() time.Time
+				}
+			}
+			if !(ci.isField(cr.dyn, ci.asErr) || isClock) {
 				okAllow = false
 				rep("R8.2", false, "the read loop calls "+name+", which is not on the allow-list", "", "blocking-call:dynamic", posOfCall(c, cr))
 			}
